@@ -95,9 +95,14 @@ def score_profile(rng, L=None, k=None, violate=None):
             break
         ballots.append({"r": None, "s": {c: common.fstr(v) for c, v in s.items()},
                         "w": gen.rand_weight(rng, "mixed")})
+    if rng.random() < 0.15:
+        # a zero-weight ballot (counts for nothing, but is still validated)
+        ballots[rng.randrange(len(ballots))]["w"] = "0"
     if violate:
         i = 0 if rng.random() < 0.5 else len(ballots) - 1
         b = ballots[i]
+        if rng.random() < 0.3:
+            b["w"] = "0"            # the offending ballot carries no weight: it must be refused all the same
         eps = rng.choice([Fraction(1, 1000000), Fraction(1, 7), Fraction(3)])
         c0 = next(iter(b["s"]))
         if violate == "over_L":
@@ -170,6 +175,9 @@ def gen_rule_cases(rng, n, rule_pool=None, with_scores=True):
         if rule in ("Plurality", "SNTV") and rng.random() < 0.1:
             jp, names = gen.four_way_pair_tie(rng)
             ncand, fam, m, tb = len(names), "four-way-pair-tie", rng.randint(1, 3), "borda"
+        elif rule in ("Plurality", "SNTV") and rng.random() < 0.04:
+            jp, names = gen.fine_secondary_tie(rng)
+            ncand, fam, m, tb = 3, "fine-secondary-tie", 1, "borda"
         if rng.random() < 0.04:
             m = rng.choice([0, ncand + 1])
         cfg = {"m": m, "tiebreak": tb}
@@ -192,6 +200,16 @@ def gen_rule_cases(rng, n, rule_pool=None, with_scores=True):
             if ties and cfg["tiebreak"] is None:
                 cfg["tiebreak"] = "random"
         cases.append({"rule": rule, "cfg": cfg, "profile": jp, "seed": rng.randrange(1 << 30), "family": fam})
+    # engineered tie families are rare under the random choice above: a fixed handful in every run
+    for rule in [r for r in ("Plurality", "SNTV") if r in pool]:
+        for k in range(3):
+            jp, names = gen.four_way_pair_tie(rng)
+            cases.append({"rule": rule, "cfg": {"m": 1 + k, "tiebreak": "borda"}, "profile": jp,
+                          "seed": rng.randrange(1 << 30), "family": "four-way-pair-tie"})
+        for k in range(2):
+            jp, names = gen.fine_secondary_tie(rng)
+            cases.append({"rule": rule, "cfg": {"m": 1, "tiebreak": "borda"}, "profile": jp,
+                          "seed": rng.randrange(1 << 30), "family": "fine-secondary-tie"})
     return cases
 
 
